@@ -99,6 +99,83 @@ func (c *Checker) checkC06Msg(msg sdk.Msg, ok bool) {
 				c.report("C06", "order-updated-to-disallowed-denom", fmt.Sprintf("UpdateSellOrders update[%d] accepted ask denom %s which is not on the allowed-denom list", i, u.NewAskPrice.Denom), nil)
 			}
 		}
+		c.checkUpdateFold(m)
+	}
+}
+
+// checkUpdateFold applies the updates of one successful MsgUpdateSellOrders one after the other to the
+// pre-state orders (the same order may be named several times) and compares the outcome: final
+// quantity, ask, market denom, expiration and auto-retire flag of every touched order, and the
+// seller's escrow/tradable moved by exactly the net quantity change.
+func (c *Checker) checkUpdateFold(m *market.MsgUpdateSellOrders) {
+	type ref struct {
+		qty   *big.Rat
+		ask   string
+		denom string
+		exp   *TS
+		dar   bool
+	}
+	refs := map[uint64]*ref{}
+	seen := map[uint64]int{}
+	for _, u := range m.Updates {
+		o := c.pre.Orders[u.SellOrderId]
+		if o == nil || o.Qty.V == nil {
+			return
+		}
+		r := refs[o.ID]
+		if r == nil {
+			r = &ref{qty: new(big.Rat).Set(o.Qty.V), ask: o.AskRaw, exp: o.Exp}
+			if mk := c.pre.Markets[o.Market]; mk != nil {
+				r.denom = mk.Denom
+			}
+			refs[o.ID] = r
+		}
+		seen[o.ID]++
+		if q, ok := MsgAmount(u.NewQuantity); ok && u.NewQuantity != "" {
+			r.qty = q
+		}
+		if u.NewAskPrice != nil {
+			r.ask, r.denom = u.NewAskPrice.Amount.String(), u.NewAskPrice.Denom
+		}
+		if u.NewExpiration != nil {
+			t := u.NewExpiration.UTC()
+			r.exp = &TS{S: t.Unix(), N: int64(t.Nanosecond())}
+		}
+		r.dar = u.DisableAutoRetire
+	}
+	delta := map[BalKey]*big.Rat{}
+	for _, id := range sortedU64(refs) {
+		r := refs[id]
+		if seen[id] > 1 {
+			c.Counters["c06_same_order_updated_several_times"]++
+		}
+		pre := c.pre.Orders[id]
+		po := c.post.Orders[id]
+		if po == nil || po.Qty.V == nil {
+			c.report("C06", "update-final-state", fmt.Sprintf("sell order %d disappeared in an update", id), pre.Row)
+			continue
+		}
+		k := BalKey{pre.Seller, pre.Batch}
+		if delta[k] == nil {
+			delta[k] = zero()
+		}
+		delta[k].Add(delta[k], sub(r.qty, pre.Qty.V))
+		denom := ""
+		if mk := c.post.Markets[po.Market]; mk != nil {
+			denom = mk.Denom
+		}
+		expOK := (r.exp == nil && po.Exp == nil) || (r.exp != nil && po.Exp != nil && r.exp.Cmp(*po.Exp) == 0)
+		if po.Qty.V.Cmp(r.qty) != 0 || po.AskRaw != r.ask || denom != r.denom || !expOK || po.DisableAutoRetire != r.dar {
+			c.report("C06", "update-final-state", fmt.Sprintf("sell order %d after %d update(s) in one message: quantity %s ask %s%s expiration %v, applying the updates in order gives quantity %s ask %s%s expiration %v",
+				id, seen[id], po.Qty.Raw, po.AskRaw, denom, po.Exp, ratStr(r.qty), r.ask, r.denom, r.exp), map[string]interface{}{"pre": pre.Row, "post": po.Row})
+		}
+	}
+	for k, d := range delta {
+		p, q := c.pre.Bal(k.Acct, k.Batch), c.post.Bal(k.Acct, k.Batch)
+		if sub(q.E.val(), p.E.val()).Cmp(d) != 0 || sub(p.T.val(), q.T.val()).Cmp(d) != 0 {
+			c.report("C06", "update-escrow-delta", fmt.Sprintf("%s batch %d: the updates change the open quantity by %s, escrow moved %s -> %s and tradable %s -> %s", k.Acct, k.Batch, ratStr(d), p.E.Raw, q.E.Raw, p.T.Raw, q.T.Raw),
+				map[string]interface{}{"pre": p.Row, "post": q.Row})
+		}
 	}
 }
 
